@@ -275,4 +275,9 @@ for _p in PROPS.values():
         _p['technique'] += '; decided on a normal form of the MIR (helper splicing, jump threading, loop/nest form, SROA; DESIGN section 11)'
 PROPS['C04']['text'] += ' R5: the table obligations of C16 (R1-R3: lifting, group axioms, general positions / signatures) are imported.'
 PROPS['C19']['text'] += ' R3: the exact-undo obligations of C06.R3 are imported (an undo that restores a stale value makes the next move larger than one step).'
+PROPS['C03']['text'] += ' PAIR: the pair law and the sum over particle pairs (C13 R1-R3, R5) are imported.'
+PROPS['C08']['text'] += ' R5: the group table obligations C16 R1 (lifting) and R4 (family = lattice system of the group) are imported.'
+PROPS['C09']['text'] += ' R1 also: MCOptimiser / BuildOptimiser are plain data (no interior mutability, nothing shared): one optimiser may serve several replicas through &self.'
+PROPS['C10']['text'] += ' R1 also: what the reduction compares is the state, or a tuple / derived-Ord record whose first component is the state.'
+PROPS['C18']['text'] += ' R2 also: every non-constant factor path of the builder that admits a given ratio yields 1 - ratio (the ratio has precedence over kt_finish).'
 
